@@ -61,6 +61,7 @@ var c16profiles = []struct {
 }
 
 type c16plan struct {
+	TCP     bool // clients are real TCP connections to a started listener instead of hooked scripted connections
 	Store   string
 	Profile int
 	Clients int
@@ -84,6 +85,7 @@ func c16get(idx int) c16plan {
 	}
 	p.PerCli = (total + p.Clients - 1) / p.Clients
 	p.YieldN = 1 + r.Intn(6)
+	p.TCP = idx%8 == 5
 	return p
 }
 
@@ -129,6 +131,22 @@ func c16run(idx int) run.Result {
 		st.Yield = yield
 		srv = newServer(st)
 	}
+	port := 0
+	if p.TCP {
+		for attempt := 0; attempt < 10 && port == 0; attempt++ {
+			port = freePort()
+			srv.SetPort(port)
+			if srv.Start() != nil {
+				port = 0
+			}
+		}
+		if port == 0 {
+			res.Inconclusive = "could not start a listener"
+			return res
+		}
+		defer srv.Stop()
+		res.Classes = append(res.Classes, "transport:tcp")
+	}
 	var mu sync.Mutex
 	var ops []lin.Op
 	var wg sync.WaitGroup
@@ -139,8 +157,24 @@ func c16run(idx int) run.Result {
 		go func(c int) {
 			defer wg.Done()
 			r := rng.New(c16.seed, rng.Str("C16c"), uint64(idx), uint64(c))
-			conn := sconn.New(sconn.Script{End: sconn.Hold})
-			wait := double.Start(srv, conn, nil)
+			var conn *sconn.Conn
+			var wait func(time.Duration) double.ServeResult
+			var tcp *tcpClient
+			if p.TCP {
+				t, err := dialSrv(port)
+				if err != nil {
+					mu.Lock()
+					timedOut = true
+					mu.Unlock()
+					<-start
+					return
+				}
+				tcp = t
+				defer tcp.c.Close()
+			} else {
+				conn = sconn.New(sconn.Script{End: sconn.Hold})
+				wait = double.Start(srv, conn, nil)
+			}
 			pos := 0
 			<-start
 			for n := 0; n < p.PerCli; n++ {
@@ -162,13 +196,28 @@ func c16run(idx int) run.Result {
 					in.Arg, in.Arg2 = uniq+"a", uniq+"b"
 					req = resp.Cmd(op, in.Key, in.Arg, in.Key2, in.Arg2)
 				}
+				var fr []resp.Value
+				var err error
+				rest, bad := 0, ""
 				t0 := tick()
-				conn.Feed(resp.Encode(req))
-				err := conn.WaitIdle(serveWait)
+				if p.TCP {
+					tcp.c.SetDeadline(time.Now().Add(serveWait))
+					_, err = tcp.c.Write(resp.Encode(req))
+					var v resp.Value
+					if err == nil {
+						v, err = tcp.read()
+					}
+					fr = []resp.Value{v}
+				} else {
+					conn.Feed(resp.Encode(req))
+					err = conn.WaitIdle(serveWait)
+				}
 				t1 := tick()
-				out := conn.OutFrom(pos)
-				pos += len(out)
-				fr, _, rest, bad, _ := resp.DecodeAll(out)
+				if !p.TCP {
+					out := conn.OutFrom(pos)
+					pos += len(out)
+					fr, _, rest, bad, _ = resp.DecodeAll(out)
+				}
 				if err != nil || bad != "" || rest != 0 || len(fr) != 1 {
 					mu.Lock()
 					timedOut = true
@@ -179,8 +228,10 @@ func c16run(idx int) run.Result {
 				ops = append(ops, lin.Op{Client: c, In: in, Out: decodeOut(fr[0]), Call: t0, Return: t1})
 				mu.Unlock()
 			}
-			conn.End(sconn.EOF)
-			wait(serveWait)
+			if !p.TCP {
+				conn.End(sconn.EOF)
+				wait(serveWait)
+			}
 		}(c)
 	}
 	close(start)
@@ -257,7 +308,7 @@ func init() {
 	run.Register(&run.Prop{
 		ID: "C16", Level: "exploration",
 		Rule: func(tier string) string {
-			return "case = one short concurrent history: 2..8 client goroutines, each with its own connection served through hook H1, issue 8..24 operations (<=12 with MSETNX) over 1..3 keys drawn from one of 9 operation profiles (incr, incr-only, append, setnx-del, setnx-only, getset, msetnx, set-get, mixed) against the bundled example store or the reference store, alternating; the stores are wrapped so that the handler yields (seeded Gosched bursts) before every Get/Set/Del primitive, i.e. between the framework's critical sections. Call and return events are stamped at the client boundary with one atomic logical clock (call before the request is fed, return after the complete reply frame). Written values are unique (client+counter), APPEND pieces are unique fixed-width tokens, DECRBY uses a distinct power of two per client. porcupine v1.3.0 decides linearizability against a sequential model of GET/SET/SETNX/GETSET/INCR/DECRBY/APPEND/DEL/MSETNX, partitioned by key unless MSETNX is present (60 s timeout => inconclusive). Evidence: histories per profile, illegal/unknown counts, overlapping op pairs and the distinct overlap shapes actually observed; a run without overlaps fails itself. Children are built with the race detector. non-trivial = at least one pair of operations on the same key overlapped"
+			return "case = one short concurrent history: 2..8 client goroutines, each with its own connection (served through hook H1; every 8th history uses real TCP connections to a started listener instead), issue 8..24 operations (<=12 with MSETNX) over 1..3 keys drawn from one of 9 operation profiles (incr, incr-only, append, setnx-del, setnx-only, getset, msetnx, set-get, mixed) against the bundled example store or the reference store, alternating; the stores are wrapped so that the handler yields (seeded Gosched bursts) before every Get/Set/Del primitive, i.e. between the framework's critical sections. Call and return events are stamped at the client boundary with one atomic logical clock (call before the request is fed, return after the complete reply frame). Written values are unique (client+counter), APPEND pieces are unique fixed-width tokens, DECRBY uses a distinct power of two per client. porcupine v1.3.0 decides linearizability against a sequential model of GET/SET/SETNX/GETSET/INCR/DECRBY/APPEND/DEL/MSETNX, partitioned by key unless MSETNX is present (60 s timeout => inconclusive). Evidence: histories per profile, illegal/unknown counts, overlapping op pairs and the distinct overlap shapes actually observed; a run without overlaps fails itself. Children are built with the race detector. non-trivial = at least one pair of operations on the same key overlapped"
 		},
 		Assumptions: []string{"porcupine v1.3.0 and the 9-operation sequential model are the reference", "an operation without a reply makes its history inconclusive"},
 		Setup: func(tier string, seed uint64) int {
